@@ -70,12 +70,17 @@ def make_cases(rng, tier):
     for ch in FAILING:
         combos.append(([], [ch]))
     for chosen, failing in combos:
-        for hold_kind in ("none", "func-child"):
+        for hold_kind in ("none", "func-child", "method-child"):
             kids = [fresh(c) for c in chosen + failing]
             rng.shuffle(kids)
             hold = ""
             if hold_kind == "func-child":
                 kids.insert(rng.randrange(len(kids) + 1), (("call", call("func", "Hold", [("const", kstr("gate"))])), ("Hold", "gate"), 1))
+                hold = "gate"
+            elif hold_kind == "method-child":
+                if rng.random() < 0.5:
+                    continue            # half of the blocks also with the held child being a METHOD call
+                kids.insert(rng.randrange(len(kids) + 1), (("call", call("method", "h.HoldM", [("const", kstr("gate"))])), ("HoldM", "gate"), 2))
                 hold = "gate"
             body = block([scall(call("func", "Mark", [("const", kint(1))])), sconc([k[0] for k in kids]), scall(call("func", "Mark", [("const", kint(99))]))],
                          ("expr", emath(mk_mbin("+", mvar("h.I64"), matom(amap(mapvar("mp", ("str", "k"))))))))
@@ -128,7 +133,7 @@ def canonical_calls(c, o):
 
 
 RULE = ("conc blocks of 0-6 children drawn from 9 non-failing shapes (assignments to a local, a struct field, a map entry, an assignment whose right-hand side calls a function; function, method and three-level calls) (also the same child written two or three times), plus at most one failing child "
-        "(undefined name, assignment to a name or struct injected by value or to a missing field, panicking function or method — one of them late and with an 8 MiB panic value —, missing function or method), shuffled; each block twice: plain, and with an extra child Hold(\"gate\") that the adversary blocks until nothing else happens for a quiet period; "
+        "(undefined name, assignment to a name or struct injected by value or to a missing field, panicking function or method — one of them late and with an 8 MiB panic value —, missing function or method), shuffled; each block twice or three times: plain, with an extra child Hold(\"gate\") (a function call) and, for half of them, with an extra child h.HoldM(\"gate\") (a method call) that the adversary blocks until nothing else happens for a quiet period; "
         "`Mark(1)` precedes and `Mark(99)` follows the block, the rule returns values written by the children; checked by the driver on the global call order: every child's call exactly once, all of them (and the held child's release) before Mark(99), "
         "Mark(99) absent when the block fails; checked inside Coq (after rewriting the block's calls into spawn order): outcome class, cited positions, returned value, host objects afterwards; "
         "distinct non-trivial = blocks with at least two children")
